@@ -288,6 +288,7 @@ class Parser:
 
     @override_docstring(r_import)
     def p_import(self, p: P) -> None:
+        self.copy_p_tracking(p)  # from 1 to 0
         # Get filepath to import.
         importing_path = p[len(p) - 2]
         filepath = self._get_child_filepath(importing_path)
@@ -625,7 +626,10 @@ class Parser:
         if isinstance(p[1], Constant):
             raise ConstInEnumUnsupported.from_token(token=p[1])
         if isinstance(p[1], Proto):
-            raise ImportInEnumUnsupported.from_token(token=p[1])
+            # The imported proto belongs to another file, cite the import statement.
+            raise ImportInEnumUnsupported(
+                lineno=p.lineno(1), filepath=self.current_filepath(), token="import"
+            )
         if isinstance(p[1], Option):
             raise OptionInEnumUnsupported.from_token(token=p[1])
         if isinstance(p[1], Enum):
@@ -706,7 +710,10 @@ class Parser:
         if isinstance(p[1], Constant):
             raise ConstInMessageUnsupported.from_token(token=p[1])
         if isinstance(p[1], Proto):
-            raise ImportInMessageUnsupported.from_token(token=p[0])
+            # The imported proto belongs to another file, cite the import statement.
+            raise ImportInMessageUnsupported(
+                lineno=p.lineno(1), filepath=self.current_filepath(), token="import"
+            )
         raise StatementInMessageUnsupported(
             lineno=p.lineno(1), filepath=self.current_filepath()
         )
